@@ -398,14 +398,14 @@ def _parse_attribute_name(name: str) -> str:
 
     chars = map(expand(_char_map), enumerate(name))
     name = "".join(chars).replace(" ", "_").replace("-", "_")
-    # Python source normalises identifiers (e.g. "ﬁ" to "fi"), so generated
-    # code would declare a different attribute from the one parsed here.
-    name = unicodedata.normalize("NFKC", name)
     if not name:
         return "blank"
     first_chars = set(string.ascii_letters) | {"_"}
     if name[0] not in first_chars:
         name = f"_{name}"
+    # Python source normalises identifiers (e.g. "ﬁ" to "fi"), so generated
+    # code would declare a different attribute from the one parsed here.
+    name = unicodedata.normalize("NFKC", name)
     if name in RESERVED_PROPERTIES:
         name = f"{name}_"
     return name
